@@ -228,6 +228,18 @@ CLAIMED = {
         note=COMMON_NOTE + "The model's schedule is unrelated to the real scheduler; atomicity of each action assumed.",
         technique="Coq interleaving model + threaded differential check (proof in progress)",
     ),
+
+    "C19": dict(
+        category="other",
+        text=("Coq model of element extraction (per-term encoded words looked up under the corpus row id), re-keying and "
+              "per-term append in the rebuilt index, compared three-way with the real constructor-on-elements, pd.concat, "
+              "take(allow_fill), reindex, shift and object round trips, against the spec `fresh index of the corresponding "
+              "documents in their new row order` (filled rows empty; docfreq / score too for constructor and concat). "
+              "Theorem (rebuilt postings = fresh index postings) in progress."),
+        design_ref="DESIGN.md 7 (C19)",
+        note=COMMON_NOTE + "pandas' concat / reindex machinery is exercised, not modelled.",
+        technique="Coq model + three-way correspondence (proof in progress)",
+    ),
 }
 
 NOT_YET = "no check registered in this revision (model/proof under construction; see DESIGN.md section 7)"
